@@ -181,6 +181,38 @@ impl Stage for ManyContainers {
                 opts: RuleOpts { ruleset: Some(1), ..Default::default() },
             });
         }
+        // directed script: two outer containers over inner [p] and [q] (either creation order), p ~ q merges the inner
+        // and the outer containers, then q ~ r rewrites the shared inner container IN PLACE; rules run in between
+        if s.bool() {
+            let mut ls = vec![0usize, 1, 2, 3];
+            for i in (1..4).rev() {
+                ls.swap(i, s.below(i + 1));
+            }
+            let (p, q, r) = (ls[0], ls[1], ls[2]);
+            let outer = |k: usize| Term::App(2, vec![Term::Prim("vec-of".into(), vec![cont(vec![leaf(k)])])]);
+            let (first, second) = if s.bool() { (p, q) } else { (q, p) };
+            cmds.push(Cmd::Act(Action::Expr(outer(first))));
+            cmds.push(Cmd::Act(Action::Expr(outer(second))));
+            if kind == ContKind::Vec {
+                // a reader of exactly the value that appears last
+                let (z4, vv) = (Term::Var("z4".into()), Term::Var("vw".into()));
+                let inner = Term::Prim("vec-get".into(), vec![Term::Prim("vec-get".into(), vec![vv.clone(), Term::I(0)]), Term::I(0)]);
+                cmds.push(Cmd::Rule {
+                    body: vec![Fact::Eq(z4.clone(), Term::App(2, vec![vv])), Fact::Eq(inner, leaf(r))],
+                    head: vec![Action::Expr(Term::App(7, vec![z4]))],
+                    opts: RuleOpts { ruleset: Some(1), ..Default::default() },
+                });
+            }
+            if s.bool() {
+                cmds.push(Cmd::RunN { rs: Some(1), n: 1, until: vec![] });
+            }
+            cmds.push(Cmd::Act(Action::Union(leaf(p), leaf(q))));
+            if s.bool() {
+                cmds.push(Cmd::RunN { rs: Some(1), n: 1, until: vec![] });
+            }
+            cmds.push(Cmd::Act(Action::Union(leaf(if s.bool() { p } else { q }), leaf(r))));
+            cmds.push(Cmd::RunN { rs: Some(1), n: 1, until: vec![] });
+        }
         let n_ops = 3 + s.below(7);
         for _ in 0..n_ops {
             match s.below(9) {
